@@ -326,7 +326,7 @@ def _ordinal(ctx, f: FuncInfo, fld: str) -> int:
 def _rule_b(ctx) -> None:
     prog = ctx.prog
     storers = {f.qualname for f, _, _ in _field_stores(prog, "_underlying")}
-    extra = storers - STORAGE_STORERS
+    extra = reduce_to_callers(prog, storers, set(STORAGE_STORERS))
     ctx.ob("b.who-stores", "package", "storers", not extra, f"functions storing _underlying: {sorted(storers)}",
            message=f"unexpected function(s) store `_underlying`: {sorted(extra)} - every storage swap must go through the "
                    f"audited sites (alias bracket, fingerprint invalidation, fresh columns)")
@@ -429,6 +429,36 @@ def _fresh_column_tuple(e) -> bool:
 def _baseline() -> Set[str]:
     from ..symx import baseline_functions
     return baseline_functions()
+
+
+def reduce_to_callers(prog, names: Set[str], allowed: Set[str]) -> Set[str]:
+    """names minus the private helpers introduced after the reference tree whose every call site lies in an allowed function (or in
+    another such helper): what such a helper stores / calls is what its callers do through it - the path rules (bracket, invalidation)
+    see it in line."""
+    base = _baseline()
+    out = set(names)
+    changed = True
+    ok = set(allowed)
+    while changed:
+        changed = False
+        for q in sorted(out - ok):
+            f = prog.functions.get(q)
+            if f is None or q in base or not f.name.startswith("_") or f.name.startswith("__"):
+                continue
+            callers = set()
+            for g in prog.functions.values():
+                if g is f or isinstance(g.node, ast.Lambda):
+                    continue
+                for c in prog.calls_in(g):
+                    if (isinstance(c.func, ast.Name) and c.func.id == f.name) or (isinstance(c.func, ast.Attribute) and c.func.attr == f.name):
+                        top = g
+                        while top.parent and top.parent in prog.functions:
+                            top = prog.functions[top.parent]
+                        callers.add(top.qualname)
+            if callers and callers <= ok:
+                ok.add(q)
+                changed = True
+    return out - ok
 
 
 def _called_in_package(prog, f: FuncInfo) -> bool:
